@@ -568,7 +568,8 @@ func (w *vWorld) pumpHub() bool {
 			h.topicPut(join.RcptTo, t)
 			w.topicInit(t, join, h)
 			if strings.HasPrefix(join.Original, "new") || strings.HasPrefix(join.Original, "nch") {
-				if h.topicGet(join.RcptTo) != nil {
+				// (the creation may fail half-way and leave the topic's row behind: it has a name all the same)
+				if h.topicGet(join.RcptTo) != nil || w.ad.Topics[join.RcptTo] != nil {
 					w.nameNewTopic(join.RcptTo)
 				}
 			}
@@ -1334,7 +1335,17 @@ func (w *vWorld) op(ws []string) (string, bool) {
 	case "hubstep":
 		// the hub takes everything off its queues (Hub.run): joins are handed to their topics, topics are shut down
 		w.ad.Calls = nil
+		if len(ws) > 1 && ws[1] == "yield" {
+			// while the hub waits for the database to delete a topic, that topic's goroutine takes the publishes queued for it
+			w.ad.YieldTopicDelete = func(name string) {
+				if t := globals.hub.topicGet(name); t != nil {
+					for w.topicStep(t, "pub") {
+					}
+				}
+			}
+		}
 		w.pumpHub()
+		w.ad.YieldTopicDelete = nil
 		w.pumpPres()
 		return w.renderLine(ws), true
 	case "tstep":
@@ -1650,6 +1661,11 @@ func (w *vWorld) op(ws []string) (string, bool) {
 		st := types.StateOK
 		if len(ws) > 2 && ws[2] == "susp" {
 			st = types.StateSuspended
+		}
+		// replyUpdateUser reads the account first: the state of an account which is not there (any more) cannot be changed
+		if u, err := store.Users.Get(uid); err != nil || u == nil {
+			w.ad.Calls = nil
+			return "nouser", true
 		}
 		if err := store.Users.UpdateState(uid, st); err != nil {
 			return "err", true
